@@ -8,62 +8,62 @@ BASE = "cd /repo && /venv/bin/python -m pytest -ra -q -p no:cacheprovider --time
 
 # id -> (technique, what is decided, residue not decided / trusted base)
 T = {
- "C01": ("typestate + def-use + polynomial normal forms on the transition kernels",
-         "structural necessary conditions of detailed balance in transitions.py: direction-flip typestate of the Metropolis step, merge/termination mirror symmetry, orientation of acceptance ratios and progressive-sampling selections, weight functions, fair direction draw, co-updated step/acceptance accumulators, divergence threshold shared through the slice variable",
-         "invariance itself (a sum over all random outcomes) is not decided; trusted: ast, the accepted idiom tables in DESIGN.md section 7"),
- "C02": ("abstract execution of every _step (palindrome check) + structural reversibility-check rule",
-         "input state copied before stepping and never written; direction factor; palindromic (self-adjoint) composition of every concrete integrator's sub-steps; every implicit / projected sub-step covered by a forward-backward check that raises NonReversibleStepError, inside the loop that performs it",
+ 'C01': ('typestate + def-use + polynomial normal forms on the transition kernels',
+         'structural necessary conditions of detailed balance in transitions.py: direction-flip typestate of the Metropolis step, merge/termination mirror symmetry, orientation of acceptance ratios and progressive-sampling selections, weight functions, fair direction draw, co-updated step/acceptance accumulators, divergence threshold shared through the slice variable; termination criterion evaluated on the merged tree and the same (negative, positive) pair for each direction; slice weight is a summable number; trajectory length independent of the state',
+         'invariance itself (a sum over all random outcomes) is not decided; trusted: ast, the accepted idiom tables in DESIGN.md section 7'),
+ 'C02': ('abstract execution of every _step (palindrome check) + structural reversibility-check rule',
+         "input state copied before stepping and never written; direction factor; palindromic (self-adjoint) composition of every concrete integrator's sub-steps; every implicit / projected sub-step covered by a forward-backward check that raises NonReversibleStepError, inside the loop that performs it; the backward solve of a check starts from the copy's current value and nothing changes the stepped state after the round-trip copy",
          "'returns to the start up to tolerance' as a numeric statement is not decided"),
- "C04": ("must-facts dataflow on solver CFGs + linear-form comparison of multiplier/position updates + operator-word algebra for the cotangent projection",
-         "projection solvers return only under a convergence test on a fresh residual and otherwise raise ConvergenceError; Lagrange-multiplier bookkeeping consistent between position and momentum corrections; projections paired with every flow in the constrained integrator; cotangent projection annihilates J M^-1; sampled momentum is projected",
-         "tolerances being met numerically for every constraint function is not decided"),
- "C05": ("symbolic term comparison of value/derivative methods resolved under each class's MRO",
-         "h = h1 + h2, dh_dpos = dh1_dpos + dh2_dpos, dh_dmom = dh2_dmom for all concrete systems; term-wise derivative table for every value/derivative pair; branch mirror for dens_wrt_hausdorff; return-convention tables of the autodiff wrappers",
-         "correctness of user functions and matrix primitives (C10/C11) is assumed"),
- "C06": ("abstract execution of _step with rational time coefficients; list evaluation of the composition coefficient derivation",
+ 'C04': ('must-facts dataflow on solver CFGs + linear-form comparison of multiplier/position updates + operator-word algebra for the cotangent projection',
+         'projection solvers return only under a convergence test on a fresh residual and otherwise raise ConvergenceError; Lagrange-multiplier bookkeeping consistent between position and momentum corrections; projections paired with every flow in the constrained integrator; cotangent projection annihilates J M^-1; sampled momentum is projected',
+         'tolerances being met numerically for every constraint function is not decided'),
+ 'C05': ("symbolic term comparison of value/derivative methods resolved under each class's MRO + user-function wiring + no in-place update of cached values",
+         'h = h1 + h2, dh_dpos = dh1_dpos + dh2_dpos, dh_dmom = dh2_dmom for all concrete systems; term-wise derivative table for every value/derivative pair; branch mirror for dens_wrt_hausdorff; return-convention tables of the autodiff wrappers; h1/h2 equal the documented formulas; every user function is wired to the method of the same meaning; no derivative method updates a state-cached array in place',
+         'correctness of user functions and matrix primitives (C10/C11) is assumed'),
+ 'C06': ('abstract execution of _step with rational time coefficients; list evaluation of the composition coefficient derivation',
          "each Hamiltonian component is advanced by exactly one step size with Hamilton's signs in every integrator; composition coefficients are consistent and palindromic for n = 0..6 (12 thorough) free coefficients; BCSS instances",
          "measured error constants / order beyond 'consistent + symmetric' are not decided"),
- "C07": ("effect sets + linear forms of explicit flows; operator comparison flow vs dh2_flow_dmom; implicit-shape guard rule",
-         "h1_flow writes only mom by -dt*dh1_dpos; Euclidean h2_flow writes only pos by +dt*dh2_dmom; harmonic flow coefficient structure and agreement with dh2_flow_dmom blocks; no unguarded use of an implicit (None) size in members the flows use",
-         "exactness of the closed-form rotation for all t is not decided"),
- "C08": ("resolved sample_momentum normal forms + polynomial identity of the Crank-Nicolson coefficients",
-         "sample_momentum = metric.sqrt @ standard normal with the same metric object as the kinetic energy; constrained classes project; triangular factor objects used by sqrt and by inv/products are the same array; a^2 + b^2 == 1 for partial refresh; coefficient range guard and branch semantics",
-         "sqrt @ sqrt.T == metric numerically per matrix class is C10"),
- "C09": ("effect-set vs declared-dependency comparison under the C3 MRO; protocol shape checks on ChainState",
-         "every code-visible way a cached value can go stale: missing dependency declarations (56 class x method pairs), aux tables, cache sharing on copy, missed invalidation, pickle table mismatch, in-place mutation behind __setattr__",
-         "user functions assumed pure functions of pos; histories are not executed"),
- "C10": ("operator-word algebra over matrix-class members + sign-parity typing",
-         "sibling representations (_left/_right multiply, array, transpose) of each class denote the same operator word; parity of every member under the sign symmetry of the sign-carrying families; inverse/sqrt/scalar-multiply identities inside the rewrite system",
-         "agreement with LAPACK numerics, conditioning, eigendecompositions not decided"),
- "C11": ("sign-parity and homogeneity-degree typing of gradient expressions",
-         "parity of grad_log_abs_det / grad_quadratic_form_inv under the family sign symmetry, homogeneity degree in the parameter and in the vector",
-         "numeric factors, transposes, triangular masking, repeated eigenvalues not decided"),
- "C12": ("CFG exit discipline + exception-flow analysis over solvers, integrators, transitions",
-         "every solver return is under a convergence test on the returned iterate, all other exits raise ConvergenceError, foreign ValueError/LinAlgError are converted, no name used on a raise path can be unbound, raise taxonomy under IntegratorError, guarded step calls, handlers record and contain, NaN guards on energies",
-         "finiteness of values as a numeric fact not decided"),
- "C13": ("Optional-narrowing dataflow, definite-assignment of statistics keys, index linear forms, sibling agreement of storage branches",
-         "documented None options are narrowed before arithmetic/comparison; returned statistics keys == declared statistic_types on every path; row index = sample_index + offset; trace written after transitions; offset advances iff stage records; in-memory and memmap branches agree on shape/fill/dtype",
-         "equality of recorded numbers with states at run time not decided"),
- "C14": ("value-flow of generators across the process boundary + ambient-randomness scan + order-restoration rule",
-         "per-chain generators derived injectively from chain index; no legacy/global RNG use; worker outputs re-ordered by chain index; generator state mutated in workers is written back to the parent objects",
-         "races inside NumPy/OS not decided"),
- "C15": ("handler-chain analysis from the iteration body to the public return",
+ 'C07': ("effect sets + linear forms of explicit flows; exact symbolic proof of the harmonic flow (Hamilton's equations by differentiation through sin/cos, sign atoms for |dt|); operator comparison flow vs dh2_flow_dmom",
+         "h1_flow writes only mom by -dt*dh1_dpos; Euclidean h2_flow writes only pos by +dt*dh2_dmom; the closed-form harmonic flow satisfies Hamilton's equations of the class's own dh2_* methods for all t and is the identity at t = 0 (per eigen-mode); dh2_flow_dmom blocks equal the flow's momentum coefficients for either sign of dt; no object-level memoisation of metric-derived quantities; no in-place update of cached gradients; no unguarded implicit (None) size",
+         'the eigendecomposition contract of the metric (eigvec orthogonal, eigval its spectrum) is assumed'),
+ 'C08': ('resolved sample_momentum normal forms + polynomial identity of the Crank-Nicolson coefficients + operator-word square-root obligations shared from C10',
+         'sample_momentum = metric.sqrt @ standard normal with the same metric object as the kinetic energy; constrained classes project; triangular factor objects used by sqrt and by inv/products are the same array; a^2 + b^2 == 1 for partial refresh; coefficient range guard and branch semantics; S S^T = M for every class whose sqrt a momentum draw can use, pure parity of the sign-carrying low-rank sqrt; stale constructor-time coefficients',
+         'agreement with LAPACK numerics is not decided'),
+ 'C09': ('effect-set vs declared-dependency comparison under the C3 MRO; protocol shape checks on ChainState and the cache decorators; may-alias analysis of cached values',
+         'every code-visible way a cached value can go stale: missing dependency declarations (56 class x method pairs), aux tables, cache sharing on copy, missed invalidation, pickle table mismatch, in-place mutation behind __setattr__; decorator protocol (key identity, registration, invalidation marker, no cross-call state); pickled dependency table keeps every key the pickled cache keeps; no cached value is (a view of) a state variable array; no in-place update of a value returned by a cached method',
+         'user functions assumed pure functions of pos; histories are not executed'),
+ 'C10': ('operator-word algebra over matrix-class members + sign-parity typing',
+         'sibling representations (_left/_right multiply, array, transpose) of each class denote the same operator word; parity of every member under the sign symmetry of the sign-carrying families; inverse/sqrt/scalar-multiply identities inside the rewrite system; block / product classes for n = 2, 3 (4) symbolic components; LU-cache typestate; forwarded capacitance caches; LAPACK solves by contract (lu_solve, cho_solve with a case split on the unseen lower flag); every member must evaluate (fail closed) except the Schur-based low-rank sqrt',
+         'agreement with LAPACK numerics, conditioning, eigendecompositions not decided'),
+ 'C11': ('exact matrix-calculus forms in the operator algebra + sign-parity and homogeneity-degree typing (with diagonal/off-diagonal positional types)',
+         'gradients of the array-, factor-, product- and low-rank-parametrised classes equal their matrix-calculus form as operator words (factors, sides, transposes, Woodbury identities through the capacitance lemma, cho_solve convention); parity and homogeneity degree of every gradient incl. the SoftAbs class; block-diagonal gradients delegate per block with the conformal vector part',
+         'numeric factors of the diagonal / scalar classes beyond degree, triangular masking, repeated eigenvalues (SoftAbs) not decided'),
+ 'C12': ('CFG exit discipline + exception-flow analysis over solvers, integrators, transitions',
+         'every solver return is under a convergence test on the returned iterate, all other exits raise ConvergenceError, foreign ValueError/LinAlgError are converted, no name used on a raise path can be unbound, raise taxonomy under IntegratorError, guarded step calls, handlers record and contain, NaN guards on energies',
+         'finiteness of values as a numeric fact not decided'),
+ 'C13': ('Optional-narrowing dataflow, definite-assignment of statistics keys, index linear forms, sibling agreement of storage branches',
+         'documented None options are narrowed before arithmetic/comparison; returned statistics keys == declared statistic_types on every path; row index = sample_index + offset; trace written after transitions; offset advances iff stage records; in-memory and memmap branches agree on shape/fill/dtype (boolean equivalence of the execution condition); worker outputs restored to chain order before collation; one memory-map file per array',
+         'equality of recorded numbers with states at run time not decided'),
+ 'C14': ('value-flow of generators across the process boundary + ambient-randomness scan + order-restoration rule + must-fact dataflow on adapter start-up',
+         'per-chain generators derived injectively from chain index; no legacy/global RNG use; worker outputs re-ordered by chain index; generator state mutated in workers is written back to the parent objects (order typing of every list between results.get() and collation); adapted transition parameters are reset before use in initialize; adapter objects are not written by per-chain methods; nothing draws from the base generator once per chain before the state-relative derivation (known finding F16)',
+         'races inside NumPy/OS not decided'),
+ 'C15': ('handler-chain analysis from the iteration body to the public return',
          "iteration loop inside try with non-reraising KeyboardInterrupt handler and flushing finally; interrupt value reaches the stage loop test on every path; interrupted chain's outputs are still collected; no later stage is started",
-         "exact prefix equality as data not decided"),
- "C16": ("polynomial partition identity over stager code, who-may-write on transition parameters, empty-stage guard",
-         "warm-up stage lengths sum to n_warm_up_iter; main stage last/non-adaptive/recording; fast stages get only fast adapters; only constructors/adapters write step_size/metric; a stage with zero iterations is never initialised/finalised",
-         "nothing numeric involved beyond integer arithmetic of the stagers"),
- "C17": ("polynomial identities of averaging updates + post-condition rules on finalize",
-         "convex-combination shape of every online update, count-weighted pooled mean / Chan merge terms, documented weights, .inv of estimate/(n-1), regularisation weights, momentum refresh after metric change, n<2 guard, reducer use",
-         "floating-point stability and the crossing property of the initial search not decided"),
- "C18": ("declared-vs-read comparison (converse direction) + protocol shape checks",
-         "no over-broad declaration on methods that evaluate user functions, every user-function call is memoised, aux tables match differential-operator return conventions, cache forwarded on copy, only dependants cleared, wrapped method evaluated only on a miss, position-only flow writes only mom",
-         "user functions calling each other are out of view"),
- "C19": ("effect analysis of matrices.py + defining-attribute vs eq/hash attribute comparison",
-         "no mutation of operands/parameters outside lazy slots; ndarray parameters frozen; _check_equality covers every defining attribute; hash attributes subset of eq attributes",
-         "bit-identical repeatability of LAPACK calls not decided"),
- "C20": ("float-interval abstract interpretation of utils.py + homomorphism table of LogRepFloat dunders",
-         "no log/log1p domain error or inf-inf on the stated input domain, branch thresholds reachable, each operator maps to the right log-space operation and comparison",
+         'exact prefix equality as data not decided'),
+ 'C16': ('polynomial partition identity over stager code, who-may-write on transition parameters, empty-stage guard',
+         'warm-up stage lengths sum to n_warm_up_iter; main stage last/non-adaptive/recording; fast stages get only fast adapters; only constructors/adapters write step_size/metric; a stage with zero iterations is never initialised/finalised; finalisation guarded exactly by non-emptiness and visiting every (transition, adapter) pair',
+         'nothing numeric involved beyond integer arithmetic of the stagers'),
+ 'C17': ('exact symbolic execution of the online updates (rational polynomials) + case analysis of initialize + transition table of the initial search + post-condition rules on finalize',
+         'convex-combination shape of every online update, count-weighted pooled mean / Chan merge terms, documented weights, .inv of estimate/(n-1), regularisation weights, momentum refresh after metric change, n<2 guard, reducer use; recursions start at their documented initial values and an explicit regularisation target is honoured for every value; the initial step-size search halves / doubles / returns as a bracketing search must in every (first?, NaN / <= log 2 / > log 2, direction) case',
+         'floating-point stability not decided'),
+ 'C18': ('declared-vs-read comparison (converse direction) + protocol shape checks',
+         'no over-broad declaration on methods that evaluate user functions, every user-function call is memoised, aux tables match differential-operator return conventions, cache forwarded on copy, only dependants cleared, wrapped method evaluated only on a miss, position-only flow writes only mom; per-variable dependency sets at every construction site; wrappers keep no state between calls; chain states only created from user input or by copy()',
+         'user functions calling each other are out of view'),
+ 'C19': ('effect analysis of matrices.py + defining-attribute vs eq/hash attribute comparison',
+         'no mutation of operands/parameters outside lazy slots; ndarray parameters frozen; _check_equality covers every defining attribute; hash attributes subset of eq attributes; equality / hash never read a lazily filled slot; no class overrides the copy / pickle protocols',
+         'bit-identical repeatability of LAPACK calls not decided'),
+ 'C20': ('float-interval abstract interpretation of utils.py + homomorphism table of LogRepFloat dunders',
+         'no log/log1p domain error or inf-inf on the stated input domain, branch thresholds reachable, each operator maps to the right log-space operation and comparison; in-place operators never return an operand; the log-space branch of __sub__ includes equal operands; reflected operators agree with the forward ones',
          "'near machine precision' beyond domain errors / cancellation branches not decided"),
 }
 
